@@ -1078,13 +1078,12 @@ func (c *child) do(line string) {
 			c.pair(line, "na")
 			return
 		}
-		failedBefore := 0
+		c.ds.mu.Lock()
 		if w[0] == "batchf" {
-			c.ds.mu.Lock()
-			c.ds.failPersist = 1
-			failedBefore = c.ds.failed
-			c.ds.mu.Unlock()
+			c.ds.failPersist = 1 // stays armed until a segment Persist meets it (a delete-only batch persists no segment)
 		}
+		failedBefore := c.ds.failed
+		c.ds.mu.Unlock()
 		b := bluge.NewBatch()
 		for _, op := range strings.Split(w[1], ",") {
 			if strings.HasPrefix(op, "d") {
@@ -1105,7 +1104,7 @@ func (c *child) do(line string) {
 		if err := c.writer.Batch(b); err != nil {
 			res = "err"
 			c.ds.mu.Lock()
-			if w[0] == "batchf" && c.ds.failed > failedBefore {
+			if c.ds.failed > failedBefore {
 				res = "err:persist" // applied (it is in the root), its first persist attempt failed, the persister retries
 			}
 			c.ds.mu.Unlock()
